@@ -54,7 +54,7 @@ def segment(evs, idx):
         elif e["ev"] in ("Stutter",):
             out.append("[" + e["what"][:60] + "]")
         elif e["ev"] == "Note":
-            out.append("cfg=" + json.dumps(e["cfg"])[:400])
+            out.append("note=" + json.dumps({k: v for k, v in e.items() if k != "ev"})[:600])
     return out
 
 
